@@ -316,7 +316,7 @@ def semi_singleton_metaclass(hashfunc: Callable | None = None) -> type:
     # by default, use a hash function to serialize all arguments
     if hashfunc is None:
 
-        def hashfunc(args: tuple, kwargs: dict) -> int:
+        def hashfunc(args: tuple, kwargs: dict) -> Hashable:
             """
             Default argument hash function for semi-singleton objects.  Causes
             semi-singletons to return new objects if any argument (positional
@@ -326,10 +326,12 @@ def semi_singleton_metaclass(hashfunc: Callable | None = None) -> type:
               call.
             :param kwargs: Dictionary of keyword arguments passed to the class
               call.
-            :return: A hash of the arguments.
+            :return: A hashable key made of the arguments.
             """
             jwargs = json.dumps(kwargs, sort_keys=True)
-            return hash((args, jwargs))
+            # use the arguments themselves as the key, not their hash:
+            # different arguments may hash alike (hash(-1) == hash(-2))
+            return (args, jwargs)
 
     class _SemiSingleton(type):
         """
